@@ -79,6 +79,7 @@ impl Case17 {
         let run = |seed: Option<&[f64]>, prelude: Option<&[usize]>| run_once(&self.hist, self.root, seed, prelude);
         let g1 = match run(Some(&self.s1), None) {
             Ok(g) => g,
+            Err(p) if is_discard(&p) => return e("discard", p),
             Err(p) => return e("unexpected-panic", format!("pass with seed s1 panicked: {}", p)),
         };
         let g2 = match run(Some(&self.s2), None) {
